@@ -6,6 +6,7 @@ import Ptn.C12.RankBridge
 import Ptn.C12.NumMain
 import Ptn.C12.NumRank
 import Ptn.C12.NumNZ
+import Ptn.C12.General
 import Mathlib.LinearAlgebra.Matrix.Rank
 import Ptn.C01.Cut
 import Ptn.C01.Fill
@@ -439,6 +440,207 @@ theorem sge_numeric_not_fully_reduced :
     have := hfr.2 0 1 0 (by decide +kernel) (by decide +kernel)
     omega
 
+/-! ### numeric `Γ` with zero rows / columns allowed (builder B69) -/
+
+/-- **Bond of a numeric cut, every `Γ` (zero rows / columns allowed) - partial.**  For every numeric
+    rectangular `Γ` and the triple `(L, M', R)` returned by the model of `gaussian_elimination` (with at
+    least one column left): the model of `minimum_vertex_cover` on `supp M'` returns a cover that (a) has
+    at least `rank Γ` vertices, (b) is a minimum cover (no cover of `supp M'` is smaller, Kőnig through
+    `Ptn.C14.mvc_correct`), hence (c) has exactly `rank Γ` vertices as soon as `supp M'` has SOME cover
+    with at most `rank Γ` vertices.  No hypothesis on zero lines of `Γ` or of `M'`.
+    Missing for the full statement `sge_numeric_bond_eq_rank_general`: that `supp M'` always has a cover
+    with `rank Γ` vertices - it needs a description of the returned shape when pivots are shifted off
+    the diagonal by zero columns (`sge_numeric_not_fully_reduced`), which is not proved; the shape
+    `PivotLines` (next theorem) is sufficient, covers that witness and every sampled output. -/
+theorem sge_numeric_bond_general_partial (M : Ptn.C13.EMat) (n : Nat) (hpos : 0 < M.length)
+    (hrect : Ptn.C13.Rect M n) (hnum : NumM M) (L : Ptn.C13.RMat) (A : Ptn.C13.EMat) (R : Ptn.C13.RMat)
+    (h : Ptn.C13.gaussianElimination M = .ok L A R) (hq : 0 < R.length) :
+    ∃ g Mt cu cv, Ptn.C14.mkGraph A.length R.length (suppEdges A) = some g ∧
+      Ptn.C14.minimumVertexCover g = .ok (Mt, cu, cv) ∧
+      (∀ p ∈ suppEdges A, p.1 ∈ cu ∨ p.2 ∈ cv) ∧
+      (numMat M M.length n).rank ≤ cu.length + cv.length ∧
+      (∀ cu' cv' : List Nat, (∀ p ∈ suppEdges A, p.1 ∈ cu' ∨ p.2 ∈ cv') →
+        cu.length + cv.length ≤ cu'.length + cv'.length) ∧
+      (∀ cu' cv' : List Nat, (∀ p ∈ suppEdges A, p.1 ∈ cu' ∨ p.2 ∈ cv') →
+        cu'.length + cv'.length ≤ (numMat M M.length n).rank →
+        cu.length + cv.length = (numMat M M.length n).rank) := by
+  obtain ⟨⟨_, _, hA, _⟩, ⟨hApos, _, _⟩, _⟩ :=
+    Ptn.C13.sge_exact M n hpos hrect (numM_nesm hnum) L A R h
+  have hnumA : NumM A := Ptn.C13.sge_no_new_symbols M (fun _ => False) hnum L A R h
+  have hw : Ptn.C13.width A = R.length := Ptn.C13.width_of_rect hA hApos
+  obtain ⟨g, Mt, cu, cv, hg, hmvc, _, _, _, hcov, _, _, _, _, _, _, hmin⟩ :=
+    Ptn.C14.mvc_correct_input A.length R.length (suppEdges A) hApos hq (fun p hp => by
+      have := (mem_suppEdges A p).1 hp
+      exact ⟨this.1, hw ▸ this.2.1⟩)
+  have hge := rank_le_list_cover A hnumA cu cv hcov
+  rw [hw, sge_numeric_rank_eq_reduced M n hpos hrect hnum L A R h] at hge
+  refine ⟨g, Mt, cu, cv, hg, hmvc, hcov, hge, hmin, fun cu' cv' hc hle => ?_⟩
+  have := hmin cu' cv' hc
+  omega
+
+/-- **Bond of a numeric cut = rank Γ for every `Γ` whose reduced matrix has pivot lines - partial.**
+    Zero rows / columns of `Γ` and of `M'` allowed.  If `M'` has the shape `PivotLines` - every non-zero
+    column holds an entry that is the only non-zero entry of its row, or the same with rows and columns
+    exchanged (implied by `FullyReduced`, by "at most one non-zero per row" = `SingleLines`, the shape of
+    the witness of `sge_numeric_not_fully_reduced`; it held for all 81770 outputs sampled through the
+    driver for `Γ` with zeroed lines, of which 379 were not fully reduced and 40 not `SingleLines`) - the
+    model of `minimum_vertex_cover` on `supp M'` returns a cover with exactly `Matrix.rank Γ` vertices: the
+    non-zero columns (resp. rows) are a cover, and they are as many as the rank
+    (`length_le_rank_of_row_pivots`: the pivots form a diagonal submatrix).  No hypothesis "no zero line".
+    Missing for `sge_numeric_bond_eq_rank_general`: `PivotLines M'` is a hypothesis on the OUTPUT; that
+    the model returns this shape for every numeric `Γ` is not proved. -/
+theorem sge_numeric_bond_eq_rank_general_partial (M : Ptn.C13.EMat) (n : Nat) (hpos : 0 < M.length)
+    (hrect : Ptn.C13.Rect M n) (hnum : NumM M) (L : Ptn.C13.RMat) (A : Ptn.C13.EMat) (R : Ptn.C13.RMat)
+    (h : Ptn.C13.gaussianElimination M = .ok L A R) (hq : 0 < R.length) (hs : PivotLines A) :
+    ∃ g Mt cu cv, Ptn.C14.mkGraph A.length R.length (suppEdges A) = some g ∧
+      Ptn.C14.minimumVertexCover g = .ok (Mt, cu, cv) ∧
+      (∀ p ∈ suppEdges A, p.1 ∈ cu ∨ p.2 ∈ cv) ∧
+      cu.length + cv.length = (numMat M M.length n).rank := by
+  obtain ⟨⟨_, _, hA, _⟩, ⟨hApos, _, _⟩, _⟩ :=
+    Ptn.C13.sge_exact M n hpos hrect (numM_nesm hnum) L A R h
+  have hnumA : NumM A := Ptn.C13.sge_no_new_symbols M (fun _ => False) hnum L A R h
+  have hw : Ptn.C13.width A = R.length := Ptn.C13.width_of_rect hA hApos
+  obtain ⟨g, Mt, cu, cv, hg, hmvc, hcov, _, _, heq⟩ :=
+    sge_numeric_bond_general_partial M n hpos hrect hnum L A R h hq
+  obtain ⟨cu', cv', hc', hle'⟩ := exists_cover_le_rank_of_pivotLines A hnumA R.length hA hw hs
+  rw [sge_numeric_rank_eq_reduced M n hpos hrect hnum L A R h] at hle'
+  exact ⟨g, Mt, cu, cv, hg, hmvc, hcov, heq cu' cv' hc' hle'⟩
+
+/-- The witness of `sge_numeric_not_fully_reduced` (a `Γ` with two zero columns whose reduced matrix is
+    NOT fully reduced) is covered by `sge_numeric_bond_eq_rank_general_partial`: its reduced matrix has
+    one non-zero entry per row, so the bond of that cut is `rank Γ`. -/
+theorem sge_numeric_not_fully_reduced_bond_eq_rank :
+    ∃ L A R, Ptn.C13.gaussianElimination exNotReduced = .ok L A R ∧ ¬ FullyReduced A ∧ SingleLines A ∧
+      ∃ g Mt cu cv, Ptn.C14.mkGraph A.length R.length (suppEdges A) = some g ∧
+        Ptn.C14.minimumVertexCover g = .ok (Mt, cu, cv) ∧
+        cu.length + cv.length = (numMat exNotReduced exNotReduced.length 4).rank := by
+  obtain ⟨hnum, hrect, hge, hnfr⟩ := sge_numeric_not_fully_reduced
+  have hrectA : Ptn.C13.Rect ([[.num (-1), .num 0, .num 0, .num 0], [.num (-1), .num 0, .num 0, .num 0],
+       [.num 0, .num 0, .num (-1), .num 0]] : Ptn.C13.EMat) 4 := by
+    intro r hr
+    simp only [List.mem_cons, List.not_mem_nil, or_false] at hr
+    rcases hr with rfl | rfl | rfl <;> rfl
+  have hs : SingleLines ([[.num (-1), .num 0, .num 0, .num 0], [.num (-1), .num 0, .num 0, .num 0],
+       [.num 0, .num 0, .num (-1), .num 0]] : Ptn.C13.EMat) := by
+    left
+    intro i j j' h1 h2
+    have b1 := nz_in_range hrectA h1
+    have b2 := nz_in_range hrectA h2
+    have key : ∀ i < 3, ∀ j < 4, ∀ j' < 4,
+        nz [[.num (-1), .num 0, .num 0, .num 0], [.num (-1), .num 0, .num 0, .num 0],
+          [.num 0, .num 0, .num (-1), .num 0]] i j = true →
+        nz [[.num (-1), .num 0, .num 0, .num 0], [.num (-1), .num 0, .num 0, .num 0],
+          [.num 0, .num 0, .num (-1), .num 0]] i j' = true → j = j' := by decide +kernel
+    exact key i b1.1 j b1.2 j' b2.2 h1 h2
+  obtain ⟨g, Mt, cu, cv, h1, h2, _, h4⟩ :=
+    sge_numeric_bond_eq_rank_general_partial exNotReduced 4 (by decide) hrect hnum _ _ _ hge
+      (by decide) (singleLines_pivotLines hs)
+  exact ⟨_, _, _, hge, hnfr, hs, g, Mt, cu, cv, h1, h2, h4⟩
+
+/-- A second witness: `Γ = exPivot` (3 × 4, two zero columns) is returned with a reduced matrix that is
+    neither fully reduced nor of shape `SingleLines` (row 2 and columns 0, 1 carry two entries), but of
+    shape `PivotLines` - so by `sge_numeric_bond_eq_rank_general_partial` the bond of the cut is `rank Γ`. -/
+theorem sge_numeric_pivot_lines_witness :
+    NumM exPivot ∧ Ptn.C13.Rect exPivot 4 ∧
+    Ptn.C13.gaussianElimination exPivot = .ok [[1, 0, 0], [0, 1, 0], [0, 0, 1]] exPivotRed
+      [[0, 0, 1, 2], [0, 0, 1, 3], [1, 0, 0, 0], [0, 1, 0, 0]] ∧
+    ¬ SingleLines exPivotRed ∧ PivotLines exPivotRed ∧
+    ∃ g Mt cu cv, Ptn.C14.mkGraph 3 4 (suppEdges exPivotRed) = some g ∧
+      Ptn.C14.minimumVertexCover g = .ok (Mt, cu, cv) ∧
+      cu.length + cv.length = (numMat exPivot 3 4).rank := by
+  have hnum : NumM exPivot := by
+    intro r hr e he
+    simp only [exPivot, List.mem_cons, List.not_mem_nil, or_false] at hr
+    rcases hr with rfl | rfl | rfl <;>
+      (simp only [List.mem_cons, List.not_mem_nil, or_false] at he
+       rcases he with rfl | rfl | rfl | rfl <;> trivial)
+  have hrect : Ptn.C13.Rect exPivot 4 := by
+    intro r hr
+    simp only [exPivot, List.mem_cons, List.not_mem_nil, or_false] at hr
+    rcases hr with rfl | rfl | rfl <;> rfl
+  have hrectA : Ptn.C13.Rect exPivotRed 4 := by
+    intro r hr
+    simp only [exPivotRed, List.mem_cons, List.not_mem_nil, or_false] at hr
+    rcases hr with rfl | rfl | rfl <;> rfl
+  have hge : Ptn.C13.gaussianElimination exPivot = .ok [[1, 0, 0], [0, 1, 0], [0, 0, 1]] exPivotRed
+      [[0, 0, 1, 2], [0, 0, 1, 3], [1, 0, 0, 0], [0, 1, 0, 0]] := by decide +kernel
+  have hns : ¬ SingleLines exPivotRed := by
+    rintro (h | h)
+    · have := h 2 0 1 (by decide +kernel) (by decide +kernel)
+      omega
+    · have := h 0 2 0 (by decide +kernel) (by decide +kernel)
+      omega
+  have hp : PivotLines exPivotRed := by
+    left
+    rintro j ⟨i, hi⟩
+    have b := nz_in_range hrectA hi
+    have key : ∀ j < 4, ∀ i < 3, nz exPivotRed i j = true →
+        ∃ i' < 3, nz exPivotRed i' j = true ∧ ∀ j' < 4, nz exPivotRed i' j' = true → j' = j := by
+      decide +kernel
+    obtain ⟨i', _, h1, h2⟩ := key j b.2 i b.1 hi
+    exact ⟨i', h1, fun j' hj' => h2 j' (nz_in_range hrectA hj').2 hj'⟩
+  obtain ⟨g, Mt, cu, cv, h1, h2, _, h4⟩ :=
+    sge_numeric_bond_eq_rank_general_partial exPivot 4 (by decide) hrect hnum _ _ _ hge
+      (by decide) hp
+  exact ⟨hnum, hrect, hge, hns, hp, g, Mt, cu, cv, h1, h2, h4⟩
+
+/-- **Cover to diagram, on the list model** (`bond_eq_cover` for the matrices the models handle).
+    Numeric rectangular `Γ` (list matrix `M`), `(L, M', R)` returned by the model of
+    `gaussian_elimination`, and a duplicate-free in-range list cover `(cu, cv)` of `supp M'` - what the
+    model of `minimum_vertex_cover` returns (`Ptn.C14.mvc_correct_input`): the operator of the cut
+    `∑ u v, Γ[u][v] • f (U u) (V v)` is a sum of exactly `len(cu) + len(cv)` pure tensors, one per new
+    vertex.  So the bond created at the cut is the number of vertices of the cover the model returns. -/
+theorem bond_eq_cover_list {X Y Z : Type*} [AddCommMonoid X] [AddCommMonoid Y] [AddCommMonoid Z]
+    [Module ℚ X] [Module ℚ Y] [Module ℚ Z] (f : X →ₗ[ℚ] Y →ₗ[ℚ] Z)
+    (M : Ptn.C13.EMat) (n : Nat) (hpos : 0 < M.length)
+    (hrect : Ptn.C13.Rect M n) (hnum : NumM M) (L : Ptn.C13.RMat) (A : Ptn.C13.EMat) (R : Ptn.C13.RMat)
+    (h : Ptn.C13.gaussianElimination M = .ok L A R)
+    (U : Fin M.length → X) (V : Fin n → Y) (cu cv : List Nat)
+    (hc : ∀ p ∈ suppEdges A, p.1 ∈ cu ∨ p.2 ∈ cv) (hcu : cu.Nodup) (hcv : cv.Nodup)
+    (hcul : ∀ u ∈ cu, u < A.length) (hcvl : ∀ v ∈ cv, v < R.length) :
+    ∃ (a : Fin (cu.length + cv.length) → X) (b : Fin (cu.length + cv.length) → Y),
+      ∑ k, f (a k) (b k) = ∑ u, ∑ v, numMat M M.length n u v • f (U u) (V v) := by
+  obtain ⟨⟨_, _, hA, _⟩, ⟨hApos, _, _⟩, _⟩ :=
+    Ptn.C13.sge_exact M n hpos hrect (numM_nesm hnum) L A R h
+  have hnumA : NumM A := Ptn.C13.sge_no_new_symbols M (fun _ => False) hnum L A R h
+  have hw : Ptn.C13.width A = R.length := Ptn.C13.width_of_rect hA hApos
+  have hcov := isCover_of_list_cover A hnumA R.length hw cu cv hc
+  have key := bond_eq_cover f U V (numMat M M.length n) (ratMat L M.length A.length)
+    (numMat A A.length R.length) (ratMat R R.length n) (numMat_factor M n hpos hrect hnum L A R h) _ _ hcov
+  rw [card_filter_mem_list cu hcu hcul, card_filter_mem_list cv hcv hcvl] at key
+  exact key
+
+/-- **Numeric cut, end to end** (every `Γ` whose reduced matrix has pivot lines; zero lines allowed):
+    the cover returned by the model of `minimum_vertex_cover` has `rank Γ` vertices AND routes the
+    operator of the cut through exactly that many pure tensors - the cut creates a bond of dimension
+    `Matrix.rank Γ`, the minimum possible (`bond_ge_schmidt_rank`). -/
+theorem sge_numeric_cut_bond_eq_rank_partial {X Y Z : Type*} [AddCommMonoid X] [AddCommMonoid Y]
+    [AddCommMonoid Z] [Module ℚ X] [Module ℚ Y] [Module ℚ Z] (f : X →ₗ[ℚ] Y →ₗ[ℚ] Z)
+    (M : Ptn.C13.EMat) (n : Nat) (hpos : 0 < M.length)
+    (hrect : Ptn.C13.Rect M n) (hnum : NumM M) (L : Ptn.C13.RMat) (A : Ptn.C13.EMat) (R : Ptn.C13.RMat)
+    (h : Ptn.C13.gaussianElimination M = .ok L A R) (hq : 0 < R.length) (hs : PivotLines A)
+    (U : Fin M.length → X) (V : Fin n → Y) :
+    ∃ g Mt cu cv, Ptn.C14.mkGraph A.length R.length (suppEdges A) = some g ∧
+      Ptn.C14.minimumVertexCover g = .ok (Mt, cu, cv) ∧
+      cu.length + cv.length = (numMat M M.length n).rank ∧
+      ∃ (a : Fin (cu.length + cv.length) → X) (b : Fin (cu.length + cv.length) → Y),
+        ∑ k, f (a k) (b k) = ∑ u, ∑ v, numMat M M.length n u v • f (U u) (V v) := by
+  obtain ⟨⟨_, _, hA, _⟩, ⟨hApos, _, _⟩, _⟩ :=
+    Ptn.C13.sge_exact M n hpos hrect (numM_nesm hnum) L A R h
+  have hw : Ptn.C13.width A = R.length := Ptn.C13.width_of_rect hA hApos
+  obtain ⟨g, Mt, cu, cv, hg, hmvc, _, _, _, hcov, hul, hvl, hun, hvn, _, _, hmin⟩ :=
+    Ptn.C14.mvc_correct_input A.length R.length (suppEdges A) hApos hq (fun p hp => by
+      have := (mem_suppEdges A p).1 hp
+      exact ⟨this.1, hw ▸ this.2.1⟩)
+  obtain ⟨g', Mt', cu', cv', hg', hmvc', _, hrk⟩ :=
+    sge_numeric_bond_eq_rank_general_partial M n hpos hrect hnum L A R h hq hs
+  rw [hg] at hg'
+  cases hg'
+  rw [hmvc] at hmvc'
+  cases hmvc'
+  exact ⟨g, Mt, cu, cv, hg, hmvc, hrk,
+    bond_eq_cover_list f M n hpos hrect hnum L A R h U V cu cv hcov hun hvn hul hvl⟩
+
 /-! Non-vacuity of the hypotheses above. -/
 
 -- `cover_of_fully_reduced`, `sge_numeric_bond_eq_rank_partial`: a rank-2 numeric matrix whose reduced
@@ -506,5 +708,12 @@ example : MFullyReduced (Matrix.of ![![(0 : ℚ), 2, 0], ![0, 0, 5]]) := by
   · intro i j j'; fin_cases i <;> fin_cases j <;> fin_cases j' <;> simp
   · intro i i' j; fin_cases i <;> fin_cases i' <;> fin_cases j <;> simp
 
+
+-- `bond_eq_cover_list`: for the reduced matrix of `exNotReduced` (not fully reduced, a zero column) the
+-- columns `[0, 2]` are a duplicate-free in-range cover of the support; `SingleLines` and `0 < R.length`
+-- for that matrix: `sge_numeric_not_fully_reduced_bond_eq_rank`
+example : (∀ p ∈ suppEdges [[.num (-1), .num 0, .num 0, .num 0], [.num (-1), .num 0, .num 0, .num 0],
+       [.num 0, .num 0, .num (-1), .num 0]], p.1 ∈ ([] : List Nat) ∨ p.2 ∈ [0, 2]) ∧
+    ([0, 2] : List Nat).Nodup ∧ ∀ v ∈ ([0, 2] : List Nat), v < 4 := by decide +kernel
 
 end Ptn.C12
